@@ -299,6 +299,24 @@ class NetRun:
 
     def start(self):
         world = self.world
+        if self.cfg.get("prelude_quick_stop") and W.is_async(self.flavour) and self.persist:
+            # an application that starts and stops the gateway in one go (no loop iteration in between)
+            gateway = self._build()
+
+            async def user():
+                await gateway.start_persistence()
+                await gateway.stop()
+
+            self.probe("quick_stop_prelude")
+            try:
+                world.acall(user())
+            except kernel.SimAbort:
+                raise
+            except BaseException as exc:  # pylint: disable=broad-except
+                self.add(vio("stop-raised", {"exc": repr(exc), "when": "stop() right after start_persistence()"}, exc=type(exc).__name__,
+                             when="immediately"))
+            world.settle()
+            self.health()
         self._build()
         world.start(persistence=bool(self.persist))
         self.out_lines()
